@@ -19,12 +19,16 @@ import (
 	"github.com/formancehq/ledger/internal/storage/ledgerstore"
 	"github.com/formancehq/stack/libs/go-libs/bun/bunpaginate"
 	"math/big"
+	"os"
 	"sort"
 	"strings"
 	"sync"
 	"time"
 
+	"bytes"
+	"github.com/ThreeDotsLabs/watermill/message"
 	ledger "github.com/formancehq/ledger/internal"
+	"github.com/formancehq/ledger/internal/bus"
 	"github.com/formancehq/ledger/internal/engine/command"
 	"github.com/formancehq/ledger/internal/machine"
 	"github.com/formancehq/ledger/internal/storage/sqlutils"
@@ -40,7 +44,8 @@ func init() {
 const actorP = -1 // the persister (the InsertLogs gate)
 
 // engWatchdogs counts the runs in which the scheduler's prediction of who arrives next was wrong (an arrival it waited
-// for never came).  Each costs a timeout; after a few of them the remaining runs of this process are skipped.
+// for never came: a "stall").  Each costs a time limit; after a few of them the limit of this process is shortened.  A
+// stalled run is carried on and judged like every other run (and flagged).
 var engWatchdogs int
 
 // ------------------------------------------------------------------ store: durable log + folds
@@ -298,9 +303,10 @@ type engSched struct {
 	parked     map[int]string
 	expect     int // arrivals of requests still to come before the system is quiet
 	expectGate int // batches still to reach the InsertLogs gate (may be negative for a moment: the batch can arrive before its producer parks)
-	appended   map[int]bool
 	trace      []any
-	events     []J
+	events     []J // what reached the publisher behind the real ledgerMonitor, decoded
+	ifaceEvents []J // what the commander asked the monitor to announce
+	publishing int // the request inside a call of the monitor (-1 = none)
 	gen        int // commander generation (restarts)
 	deadGen    map[int]bool
 
@@ -310,7 +316,6 @@ type engSched struct {
 
 	// mirror of the batcher / runner
 	persBusy    bool
-	pending     int
 	appendOrder []int // actor of the k-th Append of this generation
 	persisted   int   // how many of them are durable
 	gateBatch   int   // size of the batch at the gate
@@ -421,35 +426,152 @@ func sortedCopy(xs []string) []string {
 	return out
 }
 
-// recording monitor
+// Events.  The commander talks to the REAL bus.NewLedgerMonitor; what is judged (run["events"], the "event" entries of
+// the trace) is what reaches its message.Publisher, decoded back from the published message.  In front of it sits an
+// interface-level recorder (run["events_iface"]: what the commander asked the monitor to announce), so that a monitor
+// that drops, alters or invents an announcement is told apart from a commander that never made it.
 type engMonitor struct {
-	s  *engSched
-	st *engStore
+	s     *engSched
+	st    *engStore
+	inner bus.Monitor
 }
 
 func (m *engMonitor) rec(ctx context.Context, e J) {
-	if a, ok := ctx.Value(engActorKey{}).(int); ok {
-		e["a"] = a
+	a := -1
+	if x, ok := ctx.Value(engActorKey{}).(int); ok {
+		e["a"] = x
+		a = x
 	}
 	m.st.mu.Lock()
 	e["durable"] = len(m.st.logs)
 	m.st.mu.Unlock()
 	m.s.mu.Lock()
-	m.s.events = append(m.s.events, e)
-	m.s.trace = append(m.s.trace, J{"event": e})
+	m.s.ifaceEvents = append(m.s.ifaceEvents, e)
+	m.s.publishing = a
+	m.s.mu.Unlock()
+}
+func (m *engMonitor) done() {
+	m.s.mu.Lock()
+	m.s.publishing = -1
 	m.s.mu.Unlock()
 }
 func (m *engMonitor) CommittedTransactions(ctx context.Context, tx ledger.Transaction, am map[string]metadata.Metadata) {
 	m.rec(ctx, J{"type": "committed", "tx": txJ(&tx), "ameta": am})
+	defer m.done()
+	m.inner.CommittedTransactions(ctx, tx, am)
 }
 func (m *engMonitor) SavedMetadata(ctx context.Context, targetType, id string, md metadata.Metadata) {
 	m.rec(ctx, J{"type": "saved_meta", "target_type": targetType, "target": id, "metadata": md})
+	defer m.done()
+	m.inner.SavedMetadata(ctx, targetType, id, md)
 }
 func (m *engMonitor) RevertedTransaction(ctx context.Context, reverted, revert *ledger.Transaction) {
 	m.rec(ctx, J{"type": "reverted", "reverted": txJ(reverted), "revert": txJ(revert)})
+	defer m.done()
+	m.inner.RevertedTransaction(ctx, reverted, revert)
 }
 func (m *engMonitor) DeletedMetadata(ctx context.Context, targetType string, targetID any, key string) {
 	m.rec(ctx, J{"type": "deleted_meta", "target_type": targetType, "target": fmt.Sprint(targetID), "key": key})
+	defer m.done()
+	m.inner.DeletedMetadata(ctx, targetType, targetID, key)
+}
+
+// engPublisher is the message.Publisher behind the real ledgerMonitor: every message is decoded (generic JSON, none of the
+// repository's types) into the event record the oracles and the Lean `Events` machine consume.
+type engPublisher struct {
+	s  *engSched
+	st *engStore
+}
+
+func (p *engPublisher) Close() error { return nil }
+
+func (p *engPublisher) Publish(topic string, msgs ...*message.Message) error {
+	for _, m := range msgs {
+		e := engDecodeMessage(topic, m.Payload)
+		p.st.mu.Lock()
+		e["durable"] = len(p.st.logs)
+		p.st.mu.Unlock()
+		p.s.mu.Lock()
+		if a, ok := m.Context().Value(engActorKey{}).(int); ok {
+			e["a"] = a
+		} else if p.s.publishing >= 0 { // exactly one request runs at a time: the one inside a call of the monitor
+			e["a"] = p.s.publishing
+		}
+		p.s.events = append(p.s.events, e)
+		p.s.trace = append(p.s.trace, J{"event": e})
+		p.s.mu.Unlock()
+	}
+	return nil
+}
+
+func engTxFromJSON(x any) J {
+	m, ok := x.(map[string]any)
+	if !ok {
+		return nil
+	}
+	ps := []any{}
+	if l, ok := m["postings"].([]any); ok {
+		for _, q := range l {
+			if pm, ok := q.(map[string]any); ok {
+				ps = append(ps, []any{fmt.Sprint(pm["source"]), fmt.Sprint(pm["destination"]), fmt.Sprint(pm["amount"]), fmt.Sprint(pm["asset"])})
+			}
+		}
+	}
+	id := "nil"
+	if v, ok := m["id"]; ok && v != nil {
+		id = fmt.Sprint(v)
+	}
+	ref := ""
+	if v, ok := m["reference"].(string); ok {
+		ref = v
+	}
+	ts := int64(-2)
+	if v, ok := m["timestamp"].(string); ok {
+		if t, err := time.Parse(time.RFC3339Nano, v); err == nil {
+			ts = t.UnixMicro()
+			if ts > 1_700_000_000_000_000 {
+				ts = -1
+			}
+		}
+	}
+	return J{"id": id, "postings": ps, "reference": ref, "metadata": m["metadata"], "ts": ts}
+}
+
+func engDecodeMessage(topic string, payload []byte) J {
+	var em map[string]any
+	dec := json.NewDecoder(bytes.NewReader(payload))
+	dec.UseNumber()
+	if err := dec.Decode(&em); err != nil {
+		return J{"type": "undecodable", "topic": topic, "envelope_ok": false}
+	}
+	pl, _ := em["payload"].(map[string]any)
+	typ, _ := em["type"].(string)
+	e := J{"envelope_ok": typ == topic && em["app"] == "ledger" && em["version"] == "v2" && pl != nil && pl["ledger"] == "l"}
+	switch typ {
+	case "COMMITTED_TRANSACTIONS":
+		e["type"] = "committed"
+		txs, _ := pl["transactions"].([]any)
+		if len(txs) != 1 {
+			e["envelope_ok"] = false
+		}
+		if len(txs) > 0 {
+			e["tx"] = engTxFromJSON(txs[0])
+		}
+		e["ameta"] = pl["accountMetadata"]
+	case "REVERTED_TRANSACTION":
+		e["type"] = "reverted"
+		e["reverted"], e["revert"] = engTxFromJSON(pl["revertedTransaction"]), engTxFromJSON(pl["revertTransaction"])
+	case "SAVED_METADATA":
+		e["type"] = "saved_meta"
+		e["target_type"], e["target"], e["metadata"] = pl["targetType"], fmt.Sprint(pl["targetId"]), pl["metadata"]
+	case "DELETED_METADATA":
+		e["type"] = "deleted_meta"
+		e["target_type"], e["target"], e["key"] = pl["targetType"], fmt.Sprint(pl["targetId"]), pl["key"]
+	default:
+		e["type"] = "unknown:" + typ
+		e["envelope_ok"] = false
+	}
+	return e
 }
 
 func txJ(t *ledger.Transaction) J {
@@ -486,7 +608,7 @@ func engHashOK(prev *ledger.ChainedLog, l *ledger.ChainedLog) bool {
 }
 
 func logJ(prev, l *ledger.ChainedLog) J {
-	o := J{"id": l.ID.String(), "type": l.Type.String(), "ik": l.IdempotencyKey, "hash_ok": engHashOK(prev, l)}
+	o := J{"id": l.ID.String(), "type": l.Type.String(), "ik": l.IdempotencyKey, "hash_ok": engHashOK(prev, l), "hash": hex.EncodeToString(l.Hash)}
 	switch p := l.Data.(type) {
 	case ledger.NewTransactionLogPayload:
 		o["tx"] = txJ(p.Transaction)
@@ -552,6 +674,7 @@ type engReq struct {
 	Val    string `json:"val"`
 	TS     int64  `json:"ts"`
 	Sends  int    `json:"sends"` // > 1: the script has this many sends (source -> m0, m1, …), one transaction with many postings
+	Pass   int64  `json:"pass"`  // > 0: a chained transaction, two postings: world -> src `amount`, then src -> dst `pass`
 }
 
 func (r engReq) script() ledger.RunScript {
@@ -582,6 +705,11 @@ func (r engReq) script() ledger.RunScript {
 		}
 		fmt.Fprintf(&sb, "send [USD %d] (\n  source = @%s%s\n  destination = @%s\n)\n", r.Amount, r.Src, od, r.Dst)
 		sb.WriteString("send [USD 1] (\n  source = @world\n  destination = $back\n)\n")
+	} else if r.Pass > 0 {
+		// the middle account receives `amount` and passes `pass` on (the revert of this transaction credits it `pass` first and
+		// then debits it `amount`)
+		fmt.Fprintf(&sb, "send [USD %d] (\n  source = @world\n  destination = %s\n)\n", r.Amount, src)
+		fmt.Fprintf(&sb, "send [USD %d] (\n  source = %s%s\n  destination = @%s\n)\n", r.Pass, src, od, r.Dst)
 	} else if r.Sends > 1 {
 		for i := 0; i < r.Sends; i++ {
 			fmt.Fprintf(&sb, "send [USD %d] (\n  source = %s%s\n  destination = @m%d\n)\n", r.Amount+int64(i), src, od, i)
@@ -635,12 +763,13 @@ func runEngineSchedule(reqs []engReq, funding [][]string, ameta [][]string, plan
 	nFunding := len(st.logs)
 	initialLast := prev
 
-	s := &engSched{arrive: make(chan engArrival, 256), resume: map[int]chan error{}, parked: map[int]string{}, waiting: map[int]bool{}, appended: map[int]bool{},
+	s := &engSched{arrive: make(chan engArrival, 256), resume: map[int]chan error{}, parked: map[int]string{}, waiting: map[int]bool{},
 		lastPoint: map[int]string{}, dry: map[int]bool{}, actorGen: map[int]int{}, deadGen: map[int]bool{}}
 	s.setResumeCh(actorP)
 	r := &rng{s: plan.Seed*0x9e3779b97f4a7c15 + 7}
 	ctx0 := logging.TestingContext()
-	mon := &engMonitor{s: s, st: st}
+	s.publishing = -1
+	mon := &engMonitor{s: s, st: st, inner: bus.NewLedgerMonitor(&engPublisher{s: s, st: st}, "l")}
 	var cmd *command.Commander
 	gateFails := 0
 	st.note = func(ctx context.Context, e J) {
@@ -661,6 +790,7 @@ func runEngineSchedule(reqs []engReq, funding [][]string, ameta [][]string, plan
 			_ = gen
 			return err
 		}
+		mon.inner = bus.NewLedgerMonitor(&engPublisher{s: s, st: st}, "l") // a new process has a new monitor
 		cmd = command.New(st, &engLocker{s: s}, command.NewCompiler(8), command.NewReferencer(), mon)
 		if err := cmd.Init(ctx0); err != nil {
 			panic(fmt.Sprint("init: ", err))
@@ -746,59 +876,123 @@ func runEngineSchedule(reqs []engReq, funding [][]string, ameta [][]string, plan
 		}()
 	}
 
-	watchdog := false
+	// The scheduler FOLLOWS what the code does.  Whether a request handed a log to the batcher during its turn is read off
+	// the commander (its last log is no longer the one the harness saw last), at every arrival of every request, whatever the
+	// request is (a preview too) and wherever it parks next; the batcher's mirror is counted in entries (handed over /
+	// persisted), the size of a batch is what arrives at the gate.  What remains a prediction is the NUMBER of arrivals to wait
+	// for before the system is quiet; when one does not come within the time limit ("stall": the request blocks on something
+	// the scheduler does not see) the run goes on with whoever is parked and is judged like any other — it is also flagged,
+	// because the scheduler's picture of the protocol was wrong.  An arrival nobody predicted is simply taken.
+	stalls := 0
+	noteAppend := func(a int) { // with s.mu held
+		if a < 0 || s.actorGen[a] != s.gen {
+			return
+		}
+		ll := cmd.VerifLastLog()
+		if ll == nil || ll == s.lastCommit {
+			return
+		}
+		n := 1
+		if ll.ID != nil { // several logs in one turn: the ids tell how many
+			base := int64(-1)
+			if s.lastCommit != nil && s.lastCommit.ID != nil {
+				base = s.lastCommit.ID.Int64()
+			}
+			if d := ll.ID.Int64() - base; d > 1 && d < 64 {
+				n = int(d)
+			}
+		}
+		for k := 0; k < n; k++ {
+			s.appendOrder = append(s.appendOrder, a)
+		}
+		if !s.persBusy {
+			s.persBusy = true
+			s.expectGate++
+		}
+		lj := logJ(s.lastCommit, ll)
+		lj["prev_id"] = nil
+		if s.lastCommit != nil {
+			lj["prev_id"] = s.lastCommit.ID.String()
+		}
+		s.lastCommit = ll
+		ce := J{"a": a, "committed": lj, "last_txid": cmd.VerifLastTXID().String()}
+		if n != 1 {
+			ce["appends"] = n
+		}
+		s.trace = append(s.trace, ce)
+	}
+	take := func(e engArrival) {
+		s.mu.Lock()
+		if e.kind != 2 && s.waiting[e.actor] { // believed to wait for the store, and here it is: it did not wait
+			delete(s.waiting, e.actor)
+			s.expect++
+		}
+		switch e.kind {
+		case 0:
+			s.parked[e.actor] = e.point
+			s.expect--
+			noteAppend(e.actor)
+			s.trace = append(s.trace, J{"a": e.actor, "arrive": e.point})
+		case 1:
+			finished[e.actor] = true
+			s.expect--
+			noteAppend(e.actor)
+			fin := J{"a": e.actor, "finish": true}
+			for k, v := range e.resp {
+				fin[k] = v
+			}
+			s.trace = append(s.trace, fin)
+		case 2:
+			s.parked[actorP] = "gate"
+			s.gateBatch = len(e.logs)
+			s.expectGate--
+		case 3: // blocked on the lock queue: not runnable until granted
+			s.expect--
+			noteAppend(e.actor)
+		}
+		s.mu.Unlock()
+	}
 	waitQuiet := func() {
-		for s.expect > 0 || s.expectGate != 0 {
+		for {
+			for more := true; more; { // whatever has arrived, predicted or not
+				select {
+				case e := <-s.arrive:
+					take(e)
+				default:
+					more = false
+				}
+			}
+			if s.expect <= 0 && s.expectGate <= 0 {
+				s.expect, s.expectGate = 0, 0
+				return
+			}
+			limit := 4 * time.Second
+			if engWatchdogs >= 3 { // this process has met a protocol the scheduler does not predict: do not burn the full limit every time
+				limit = 300 * time.Millisecond
+			}
 			select {
 			case e := <-s.arrive:
+				take(e)
+			case <-time.After(limit):
 				s.mu.Lock()
-				switch e.kind {
-				case 0:
-					s.parked[e.actor] = e.point
-					s.expect--
-					if e.point == "wait" && !s.dry[e.actor] && !s.appended[e.actor] {
-						// a real write only reaches the wait for persistence through AppendLog: it has handed exactly one log to the
-						// batcher during this turn (whatever the yield points between the commit and here are called)
-						s.appended[e.actor] = true
-						s.appendOrder = append(s.appendOrder, e.actor)
-						if !s.persBusy {
-							s.persBusy = true
-							s.expectGate++
-						} else {
-							s.pending++
-						}
-						// the actor has just committed: exactly one actor runs at a time, so the commander's last log is its log
-						if ll := cmd.VerifLastLog(); ll != nil {
-							lj := logJ(s.lastCommit, ll)
-							lj["prev_id"] = nil
-							if s.lastCommit != nil {
-								lj["prev_id"] = s.lastCommit.ID.String()
-							}
-							s.lastCommit = ll
-							lj["hash"] = hex.EncodeToString(ll.Hash)
-							s.trace = append(s.trace, J{"a": e.actor, "committed": lj, "last_txid": cmd.VerifLastTXID().String()})
-						}
+				s.trace = append(s.trace, J{"stall": J{"requests": s.expect, "batches": s.expectGate, "step": step}})
+				if os.Getenv("VERIF_ENGINE_DEBUG") != "" { // where the prediction failed: the last entries of the trace
+					from := len(s.trace) - 14
+					if from < 0 {
+						from = 0
 					}
-					s.trace = append(s.trace, J{"a": e.actor, "arrive": e.point})
-				case 1:
-					finished[e.actor] = true
-					s.expect--
-					fin := J{"a": e.actor, "finish": true}
-					for k, v := range e.resp {
-						fin[k] = v
+					for _, t := range s.trace[from:] {
+						b, _ := json.Marshal(t)
+						if len(b) > 260 {
+							b = b[:260]
+						}
+						fmt.Fprintln(os.Stderr, "stall:", string(b))
 					}
-					s.trace = append(s.trace, fin)
-				case 2:
-					s.parked[actorP] = "gate"
-					s.gateBatch = len(e.logs)
-					s.expectGate--
-				case 3: // blocked on the lock queue: not runnable until granted
-					s.expect--
+					fmt.Fprintln(os.Stderr, "stall: parked", s.parked, "waiting", s.waiting, "appendOrder", s.appendOrder, "persisted", s.persisted, "busy", s.persBusy)
 				}
+				s.expect, s.expectGate = 0, 0
 				s.mu.Unlock()
-			case <-time.After(4 * time.Second):
-				watchdog = true
-				engWatchdogs++
+				stalls++
 				return
 			}
 		}
@@ -817,7 +1011,7 @@ func runEngineSchedule(reqs []engReq, funding [][]string, ameta [][]string, plan
 		}
 		s.gen++
 		s.holders, s.queue = nil, nil
-		s.persBusy, s.pending, s.appendOrder, s.persisted, s.expectGate = false, 0, nil, 0, 0
+		s.persBusy, s.appendOrder, s.persisted, s.expectGate = false, nil, 0, 0
 		s.waiting = map[int]bool{}
 		s.setResumeCh(actorP)
 		st.mu.Lock()
@@ -836,17 +1030,14 @@ func runEngineSchedule(reqs []engReq, funding [][]string, ameta [][]string, plan
 		}
 	}
 	gateReleases := 0
-	for ph := 0; ph < phases && !watchdog; ph++ {
+	for ph := 0; ph < phases; ph++ {
 		for i, rq := range reqs {
 			if rq.Phase == ph {
 				start(i)
 			}
 		}
-		for !watchdog {
+		for {
 			waitQuiet()
-			if watchdog {
-				break
-			}
 			if plan.Crash == step { // process death at this point; restart from the store
 				plan.Crash = -2
 				doCrash()
@@ -936,18 +1127,26 @@ func runEngineSchedule(reqs []engReq, funding [][]string, ameta [][]string, plan
 					s.resumeCh(actorP) <- fmt.Errorf("injected store failure")
 				} else {
 					n := s.gateBatch
-					// waiters of this batch wake up
-					for k := s.persisted; k < s.persisted+n && k < len(s.appendOrder); k++ {
-						w := s.appendOrder[k]
-						if s.waiting[w] {
-							delete(s.waiting, w)
-							s.expect++
+					s.persisted += n
+					// the waiters whose entries are all persisted now wake up
+					var ws []int
+					for w := range s.waiting {
+						last := -1
+						for k, x := range s.appendOrder {
+							if x == w {
+								last = k
+							}
+						}
+						if last < s.persisted {
+							ws = append(ws, w)
 						}
 					}
-					s.persisted += n
-					if s.pending > 0 {
-						s.pending = 0
-						s.expectGate++ // the next batch reaches the gate
+					for _, w := range ws {
+						delete(s.waiting, w)
+						s.expect++
+					}
+					if len(s.appendOrder) > s.persisted {
+						s.expectGate++ // entries were handed over meanwhile: the next batch reaches the gate
 					} else {
 						s.persBusy = false
 					}
@@ -973,7 +1172,7 @@ func runEngineSchedule(reqs []engReq, funding [][]string, ameta [][]string, plan
 							idx = k
 						}
 					}
-					if s.dry[a] || idx < 0 || idx < s.persisted {
+					if idx < 0 || idx < s.persisted { // it handed no log over (a preview, on the unchanged code), or its log is persisted already
 						s.expect++
 					} else {
 						s.waiting[a] = true
@@ -987,7 +1186,7 @@ func runEngineSchedule(reqs []engReq, funding [][]string, ameta [][]string, plan
 			}
 			step++
 		}
-		if plan.HasCrashAfter && plan.CrashAfterPhase == ph && !watchdog {
+		if plan.HasCrashAfter && plan.CrashAfterPhase == ph {
 			waitQuiet()
 			doCrash()
 		}
@@ -1014,7 +1213,7 @@ func runEngineSchedule(reqs []engReq, funding [][]string, ameta [][]string, plan
 	}
 	respMu.Unlock()
 	sort.Ints(crashed)
-	return J{"trace": s.trace, "durable": durable, "responses": rs, "events": append([]J{}, s.events...), "crashed": append([]int{}, crashed...), "watchdog": watchdog, "steps": step,
+	return J{"trace": s.trace, "durable": durable, "responses": rs, "events": append([]J{}, s.events...), "events_iface": append([]J{}, s.ifaceEvents...), "crashed": append([]int{}, crashed...), "watchdog": stalls > 0, "stalls": stalls, "steps": step,
 		"n_funding": nFunding, "choices": choices, "counts": counts}
 }
 
@@ -1039,18 +1238,17 @@ func execEngine(in J) J {
 	runs := []any{}
 	plansOut := []any{}
 	one := func(p engPlan) J {
-		if engWatchdogs >= 3 { // the protocol observed no longer matches what the scheduler expects: stop burning timeouts
-			return J{"watchdog": true, "skipped": true, "trace": []any{}, "durable": []any{}, "responses": []any{}, "events": []any{}, "crashed": []any{},
-				"n_funding": 0, "choices": []int{}, "counts": []int{}, "steps": 0}
-		}
 		run := runEngineSchedule(sc.Requests, sc.Funding, sc.Metadata, p)
 		if run["watchdog"] == true {
-			// a stall of the machine (loaded host) does not repeat, a protocol the scheduler no longer predicts does:
-			// the same plan is run once more before the run is reported
-			if again := runEngineSchedule(sc.Requests, sc.Funding, sc.Metadata, p); again["watchdog"] != true {
-				engWatchdogs--
-				again["retried"] = true
-				run = again
+			// a stall of the machine (loaded host) does not repeat, a protocol the scheduler does not predict does: the same plan is
+			// run once more before the run is reported (as long as this process has not met several of them already)
+			engWatchdogs++
+			if engWatchdogs <= 3 {
+				if again := runEngineSchedule(sc.Requests, sc.Funding, sc.Metadata, p); again["watchdog"] != true {
+					engWatchdogs--
+					again["retried"] = true
+					run = again
+				}
 			}
 		}
 		if sc.Twin { // the same history without its previews (C14)
@@ -1211,6 +1409,14 @@ func genEngine(r *rng, n int, tier string, emit func(J)) {
 				q["phase"], q["dry"], q["ik"], q["ref"] = ph, false, "same-key", ""
 				reqs = append(reqs, q)
 			}
+			// every other scenario of this family: the key has the length of a uuid, of the key column, one more, or well beyond
+			// (decided from a copy of the generator state: the requests and the plans are what they were before)
+			if gk := (&rng{s: g.s ^ 0x1d3e9c0ffee}); gk.p(60) {
+				key := engLongKey([]int{36, 255, 256, 300}[gk.n(4)], gk.n(1000))
+				for _, q := range reqs {
+					q["ik"] = key
+				}
+			}
 		case 4: // a sequential history with previews in it (compared with the same history without them)
 			twin = true
 			k := 3 + g.n(3)
@@ -1340,4 +1546,216 @@ func genEngine(r *rng, n int, tier string, emit func(J)) {
 		}
 		emit(J{"requests": reqs, "funding": funding, "metadata": meta, "plans": plans, "twin": twin})
 	}
+	// ---- second series (n/2 more scenarios, from a generator of its own: the series above is what it was): multi-step
+	// histories around ONE entry of the log — a reference whose holder is reverted, a transaction reverted again under a fresh
+	// idempotency key, a key used by a real write and by a preview, previews of metadata writes, chained transactions whose
+	// middle account spends what it kept before the revert
+	rx := &rng{s: r.s ^ 0x5ec0dd5e71e5}
+	const nShapes = 6
+	for e := 0; e < n/2; e++ {
+		g := rx.fork()
+		funding := [][]string{}
+		for _, a := range accts {
+			funding = append(funding, []string{a, "USD", fmt.Sprint(50 + 50*g.n(3))})
+		}
+		meta := [][]string{}
+		for _, a := range accts {
+			meta = append(meta, []string{"registry", a, a})
+		}
+		var reqs []J
+		twin, crashes := false, true
+		restartAfter := -1
+		nf := len(funding) // the first transaction committed by a request gets this id
+		switch e % nShapes {
+		case 0: // a reference: committed, its holder reverted, submitted again
+			ref := "ref-r"
+			first := create(g, 0, g.pick(accts), "dave", 10+10*g.n(2))
+			first["ref"] = ref
+			reqs = append(reqs, first)
+			rv := J{"kind": "revert", "phase": 1, "dry": false, "ik": "", "ref": "", "target": nf, "force": g.p(40)}
+			if g.p(30) {
+				rv["ik"] = "rev-key"
+			}
+			reqs = append(reqs, rv)
+			again := func(ph int) J {
+				q := create(g, ph, g.pick(accts), "dave", 10+10*g.n(2))
+				q["ref"] = ref
+				return q
+			}
+			switch g.n(4) {
+			case 0: // strictly one after the other
+				reqs = append(reqs, again(2))
+				if g.p(50) {
+					reqs = append(reqs, again(3))
+				}
+			case 1: // the revert is in flight while the reference comes back
+				reqs = append(reqs, again(1), again(2))
+			case 2: // two of them at once, after the revert
+				reqs = append(reqs, again(2), again(2))
+			default: // a restart between the revert and the resubmission
+				reqs = append(reqs, again(2))
+				restartAfter = 1
+			}
+		case 1: // a transaction reverted, then reverted again under a fresh idempotency key
+			t := g.n(nf) // a funding transaction: world -> account
+			if g.p(50) { // funds remain after the first revert
+				q := create(g, 0, "world", accts[t], 200)
+				q["via"] = "lit"
+				reqs = append(reqs, q)
+			} else if g.p(40) { // one created here
+				reqs = append(reqs, create(g, 0, g.pick(accts), "dave", 10+10*g.n(2)))
+				t = nf
+			}
+			k1 := g.pick([]string{"", "rk-1", "rk-1"})
+			reqs = append(reqs, J{"kind": "revert", "phase": 1, "dry": false, "ik": k1, "ref": "", "target": t, "force": g.p(30)})
+			reqs = append(reqs, J{"kind": "revert", "phase": 2, "dry": false, "ik": "rk-2", "ref": "", "target": t, "force": g.p(50)})
+			switch g.n(4) {
+			case 0: // once more, the other way round
+				reqs = append(reqs, J{"kind": "revert", "phase": 3, "dry": false, "ik": "rk-3", "ref": "", "target": t, "force": !reqs[len(reqs)-1]["force"].(bool)})
+			case 1: // ANOTHER transaction under a fresh key: must go through
+				reqs = append(reqs, J{"kind": "revert", "phase": 3, "dry": false, "ik": "rk-4", "ref": "", "target": (t + 1) % nf, "force": true})
+			case 2: // the retry of the first one
+				reqs = append(reqs, J{"kind": "revert", "phase": 3, "dry": false, "ik": k1, "ref": "", "target": t, "force": false})
+			}
+		case 2: // one idempotency key, a real write and a preview of the same request (both orders), every kind of write
+			twin, crashes = true, false
+			var q J
+			switch g.n(6) {
+			case 0, 1:
+				q = create(g, 0, g.pick(accts), "dave", 10+10*g.n(2))
+			case 2:
+				q = J{"kind": "revert", "target": g.n(nf), "force": g.p(50)}
+			case 3:
+				q = J{"kind": "setmeta", "acct": g.pick(accts), "key": "k1", "val": "v"}
+			case 4:
+				q = J{"kind": "delmeta", "acct": g.pick(accts), "key": g.pick(accts)}
+			default:
+				if g.p(50) {
+					q = J{"kind": "setmeta", "target": g.n(nf), "key": "k1", "val": "v"}
+				} else {
+					q = J{"kind": "delmeta", "target": g.n(nf), "key": "k1"}
+				}
+			}
+			q["ik"], q["ref"] = "pk-1", ""
+			cp := func(ph int, dry bool) J {
+				c := J{}
+				for k, v := range q {
+					c[k] = v
+				}
+				c["phase"], c["dry"] = ph, dry
+				return c
+			}
+			realFirst := g.p(60)
+			reqs = append(reqs, cp(0, !realFirst), cp(1, realFirst))
+			switch g.n(3) {
+			case 0:
+				reqs = append(reqs, cp(2, false))
+			case 1:
+				reqs = append(reqs, cp(2, true))
+			}
+		case 3: // previews of metadata writes (accounts and transactions) among real writes
+			twin, crashes = true, false
+			k := 3 + g.n(4)
+			for i := 0; i < k; i++ {
+				var q J
+				switch g.n(5) {
+				case 0:
+					q = J{"kind": "setmeta", "acct": g.pick(accts), "key": g.pick([]string{"k1", "k2"}), "val": fmt.Sprintf("v%d", i)}
+				case 1:
+					q = J{"kind": "setmeta", "target": g.n(nf), "key": g.pick([]string{"k1", "k2"}), "val": fmt.Sprintf("v%d", i)}
+				case 2:
+					q = J{"kind": "delmeta", "acct": g.pick(accts), "key": g.pick([]string{"k1", "k2", "alice"})}
+				case 3:
+					q = J{"kind": "delmeta", "target": g.n(nf), "key": g.pick([]string{"k1", "k2"})}
+				default:
+					q = create(g, i, g.pick(accts), "dave", 10)
+				}
+				q["ik"], q["ref"] = "", ""
+				if g.p(20) {
+					q["ik"] = fmt.Sprintf("mk-%d", g.n(2))
+				}
+				q["phase"], q["dry"] = i, q["kind"] != "create" && g.p(55)
+				reqs = append(reqs, q)
+			}
+		case 5: // one key of a given length: the write, its retry, a restart, the retry again (every kind of write)
+			var q J
+			switch g.n(5) {
+			case 0, 1:
+				q = create(g, 0, g.pick(accts), "dave", 10+10*g.n(2))
+			case 2:
+				q = J{"kind": "revert", "target": g.n(nf), "force": g.p(50)}
+			case 3:
+				q = J{"kind": "setmeta", "acct": g.pick(accts), "key": "k1", "val": "v"}
+			default:
+				q = J{"kind": "delmeta", "acct": g.pick(accts), "key": "k1"}
+			}
+			q["ik"], q["ref"], q["dry"] = engLongKey([]int{36, 255, 256, 300}[(e/nShapes)%4], g.n(1000)), "", false
+			k := 3 + g.n(2)
+			for i := 0; i < k; i++ {
+				c := J{}
+				for kk, v := range q {
+					c[kk] = v
+				}
+				c["phase"] = i
+				if i == 1 && g.p(30) { // the retry overlaps the write
+					c["phase"] = 0
+				}
+				reqs = append(reqs, c)
+			}
+			if g.p(60) {
+				restartAfter = 1
+			}
+		default: // a chained transaction (world -> erin n ; erin -> dst m, m < n), erin spends what it kept, then the reverts
+			nAmt := []int{100, 80, 60}[g.n(3)]
+			mAmt := []int{30, 50, 10}[g.n(3)]
+			chain := J{"kind": "create", "phase": 0, "dry": false, "ik": "", "ref": "", "src": "erin", "via": "lit", "dst": g.pick([]string{"bob", "carol"}), "amount": nAmt, "pass": mAmt}
+			reqs = append(reqs, chain)
+			ph := 1
+			switch g.n(4) {
+			case 0: // nothing spent: the unforced revert goes through
+			case 1: // part of it
+				reqs = append(reqs, create(g, ph, "erin", "dave", (nAmt-mAmt)/2))
+				reqs[len(reqs)-1]["via"] = "lit"
+				ph++
+			default: // all of it
+				reqs = append(reqs, create(g, ph, "erin", "dave", nAmt-mAmt))
+				reqs[len(reqs)-1]["via"] = "lit"
+				ph++
+			}
+			rvq := func(ph int, force bool) J {
+				return J{"kind": "revert", "phase": ph, "dry": false, "ik": "", "ref": "", "target": nf, "force": force}
+			}
+			switch g.n(3) {
+			case 0: // unforced, then forced
+				reqs = append(reqs, rvq(ph, false), rvq(ph+1, true))
+			case 1: // both at once
+				reqs = append(reqs, rvq(ph, false), rvq(ph, true))
+			default: // unforced twice (a restart in between in part of the plans), then forced
+				reqs = append(reqs, rvq(ph, false), rvq(ph+1, false), rvq(ph+2, true))
+			}
+		}
+		plans := mkPlans(g, len(reqs), crashes)
+		if restartAfter >= 0 {
+			for _, pl := range plans {
+				pl["crash"], pl["fail"] = -1, -1
+				pl["has_crash_after"], pl["crash_after_phase"] = true, restartAfter
+			}
+		} else if crashes && g.p(40) { // a restart between two phases in part of the plans
+			for k, pl := range plans {
+				if k%2 == 1 && pl["crash"] == -1 && pl["fail"] == -1 {
+					pl["has_crash_after"], pl["crash_after_phase"] = true, g.n(2)
+				}
+			}
+		}
+		emit(J{"requests": reqs, "funding": funding, "metadata": meta, "plans": plans, "twin": twin, "series": 2, "shape": e % nShapes})
+	}
+}
+
+// engLongKey: an idempotency key of exactly n bytes (ASCII), distinct per tag within its first 16 bytes
+func engLongKey(n int, tag int) string {
+	k := fmt.Sprintf("idem-%04d-", tag)
+	for len(k) < n {
+		k += "0123456789abcdefghijklmnopqrstuvwxyz"[len(k)%36 : len(k)%36+1]
+	}
+	return k[:n]
 }
